@@ -63,6 +63,9 @@ RNG_METHODS = {'choice', 'integers', 'random', 'shuffle', 'permutation', 'unifor
 @dataclass
 class Summary:
     mut_params: Set[str] = field(default_factory=set)      # names of params possibly mutated
+    # param -> first-level attributes through which it is mutated ('*': the object itself, or
+    # unknown); used to restrict the reach at call sites whose argument is a fresh record
+    mut_fields: Dict[str, Set[str]] = field(default_factory=dict)
     # ... of which: mutated below the object itself (a store into something obtained from the
     # parameter by attribute / subscript reads): at a call site this reaches whatever the
     # argument holds, not only what it is
@@ -470,9 +473,30 @@ class Effects:
                 t = e.target
                 base = t.value if isinstance(t, (ast.Attribute, ast.Subscript)) else t
                 shallow = self.roots(q, base, at=e.order, hops0=True)
+                # `p.F[..] = v` / `p.F.x = v`: the mutation goes through field F of p
+                fb = base
+                while isinstance(fb, ast.Subscript):
+                    fb = fb.value
+                via = '*'
+                if isinstance(fb, ast.Attribute) and isinstance(fb.value, ast.Name) and \
+                        fb.value.id in w.params and fb is not t:
+                    # `p.F[k] = v` changes the object in F itself; `p.F[k].x = v` /
+                    # `p.F.G[k] = v` something it holds ('F*')
+                    via = fb.attr if base is fb else fb.attr + '*'
+                elif isinstance(fb, ast.Attribute):
+                    inner = fb
+                    while isinstance(inner.value, (ast.Attribute, ast.Subscript)):
+                        inner = inner.value
+                    if isinstance(inner, ast.Attribute) and isinstance(inner.value, ast.Name) \
+                            and inner.value.id in w.params:
+                        fb = inner
+                        via = inner.attr + '*'
                 for r in self.roots(q, base, at=e.order):
                     if f.name == '__init__' and r == 'self':
                         continue
+                    s.mut_fields.setdefault(r, set()).add(
+                        via if isinstance(fb, ast.Attribute) and isinstance(fb.value, ast.Name)
+                        and fb.value.id == r else '*')
                     s.mut_params.add(r)
                     if r not in shallow:
                         s.mut_deep.add(r)
@@ -538,6 +562,31 @@ class Effects:
             return False
         return True
 
+    def _record_args(self, q: str, arg: ast.AST):
+        """{field: argument} when `arg` is (a local bound once to) a constructor call of a
+        package dataclass whose fields are its annotated class attributes, in order"""
+        w = self.walks[q]
+        v = arg
+        if isinstance(v, ast.Name):
+            d = w.sole_binding(v.id)
+            v = d[1] if d is not None and d[0] == 'value' else None
+        if not (isinstance(v, ast.Call) and isinstance(v.func, ast.Name)):
+            return None
+        c = self.index.find_class(v.func.id)
+        if c is None or not any('dataclass' in src(d_) for d_ in c.node.decorator_list) or \
+                '__init__' in c.methods or '__post_init__' in c.methods:
+            return None
+        fields_ = [s_.target.id for s_ in c.node.body
+                   if isinstance(s_, ast.AnnAssign) and isinstance(s_.target, ast.Name)]
+        if len(v.args) > len(fields_) or any(isinstance(a, ast.Starred) for a in v.args):
+            return None
+        out = dict(zip(fields_, v.args))
+        for k in v.keywords:
+            if k.arg is None:
+                return None
+            out[k.arg] = k.value
+        return out
+
     def _is_module_global(self, m: Module, name: str) -> bool:
         return name in m.assigns
 
@@ -576,6 +625,20 @@ class Effects:
                             top = self.roots(q, arg, at=e.order, hops0=True)
                             if pname in ts.mut_deep:
                                 reach = reach | self.contains(q, arg)
+                            # the argument is a record built here (`Observation(grid, agent)`)
+                            # and the callee only goes through some of its fields: what can
+                            # change is what those fields were given
+                            flds = ts.mut_fields.get(pname, {'*'})
+                            rec = self._record_args(q, arg)
+                            if '*' not in flds and rec is not None and \
+                                    all(f_.rstrip('*') in rec for f_ in flds):
+                                reach = set()
+                                for f_ in flds:
+                                    a_ = rec[f_.rstrip('*')]
+                                    reach |= self.roots(q, a_, at=e.order)
+                                    if f_.endswith('*'):
+                                        reach |= self.contains(q, a_)
+                                top = set()
                             for r in reach:
                                 if f.name == '__init__' and r == 'self':
                                     continue
